@@ -1,6 +1,6 @@
 SPECIFICATION Spec
 CONSTANTS
-  N = 5
+  N = 4
 INVARIANT StepRefines
 INVARIANT RunAgrees
 INVARIANT SiteValid
